@@ -29,7 +29,7 @@ TABLE = {
     'C19': ASM[:5] + [PA + ':parse_ad', PA + ':dict_add', PA + ':dict_sub', PA + ':dict_mul', AT + ':parse_args', A + ':mnemo_from_att'],
     'C10': DEC[:3] + [B + ':bin_stream_str.readbs'] + ASM[:3] + REN[:1],
     'C17': [A + ':x86_mn.getnextflow', A + ':x86_mn.getdstflow', A + ':x86_mn.breakflow', A + ':x86_mn.splitflow', A + ':x86_mn.dstflow'] + DEC[:1],
-    'C04': LIFT, 'C11': LIFT, 'C08': LIFT + [E + ':%s.get_r' % n for n in NODES] + [E + ':%s.get_w' % n for n in NODES],
+    'C04': LIFT, 'C11': LIFT + [E + ':slice_rest', E + ':ExprAff.__init__'], 'C08': LIFT + [E + ':%s.get_r' % n for n in NODES] + [E + ':%s.get_w' % n for n in NODES],
     'C05': [H + ':expr_simp', H + ':_expr_simp_w', H + ':_expr_simp', H + ':merge_sliceto_slice', H + ':parity'],
     'C13': [H + ':expr_simp', H + ':_expr_simp_w', H + ':_expr_simp', E + ':key_expr', E + ':canonize_expr_list'],
     'C06': [V + ':eval_abs.eval_expr', V + ':eval_abs.eval_expr_no_cache', V + ':eval_abs.eval_ExprOp', V + ':eval_abs.eval_ExprCond', V + ':eval_abs.eval_ExprSlice',
